@@ -10,7 +10,8 @@
 //     ends on a later line, duplicate import lines;
 //   - a simple name that is also declared in the file (type, member, variable, type parameter) or that appears as a
 //     segment of another import / of the package line; fully-qualified uses (`java.util.List x`) of an imported name;
-//   - type names starting with a lower-case letter, non-ASCII identifiers;
+//   - type names starting with a lower-case letter, names containing '$' (non-ASCII letters ARE generated: Überweisung,
+//     Geprüft, 订单, GEBÜHR, prüfe and synthetic names with one non-ASCII letter, in every role);
 //   - src/test/java directories and .gitignore patterns. Real test sources by name (*Test.java / *Tests.java, which the
 //     tool's walk skips by design) ARE generated as bystanders: their cleaning is not demanded, everything else is.
 //     Production classes whose name merely ends in lower-case "test"/"tests" (Contest, Latest, Protests) are ordinary files.
@@ -47,6 +48,16 @@ type Import struct {
 	Gap      string   `json:"gap"`   // what precedes the line: none | blank | blank2 | line-comment | block-comment | block-comment-multi
 	Line     int      `json:"line"`  // 1-based line of the declaration
 	Src      string   `json:"src"`   // text of that line (without line terminator)
+}
+
+// NonASCII: the simple name contains a letter outside ASCII (Überweisung, 订单, GEBÜHR).
+func (im *Import) NonASCII() bool {
+	for i := 0; i < len(im.Simple); i++ {
+		if im.Simple[i] >= 0x80 {
+			return true
+		}
+	}
+	return false
 }
 
 func (im *Import) IsWildcard() bool { return im.Kind == KindWildcard || im.Kind == KindStaticWildcard }
@@ -292,6 +303,8 @@ var classPool = []qname{
 	{"org.slf4j", "Logger"}, {"org.slf4j", "LoggerFactory"}, {"com.google.gson", "Gson"}, {"com.google.common.base", "Strings"},
 	{"com.fasterxml.jackson.databind", "ObjectMapper"}, {"org.springframework.web.client", "RestTemplate"},
 	{"org.springframework.data.domain", "Pageable"}, {"org.springframework.data.domain", "Page"}, {"android", "R"},
+	{"de.bank.konto", "Überweisung"}, {"de.bank.konto", "Gebühr"}, {"de.bank.konto", "Währung"}, {"cn.shop.model", "订单"},
+	{"fr.boutique", "Café"}, {"es.tienda", "Señal"}, {"gr.math", "Δείκτης"}, {"de.bank.konto", "KontoAuszügeLeser"},
 }
 
 var annotationPool = []qname{
@@ -303,6 +316,7 @@ var annotationPool = []qname{
 	{"org.springframework.web.bind.annotation", "RestController"}, {"org.springframework.web.bind.annotation", "GetMapping"},
 	{"org.springframework.transaction.annotation", "Transactional"}, {"org.springframework.context.annotation", "Bean"},
 	{"com.fasterxml.jackson.annotation", "JsonProperty"}, {"com.fasterxml.jackson.annotation", "JsonIgnore"},
+	{"de.bank.pruefung", "Geprüft"}, {"de.bank.pruefung", "Prüfen"}, {"cn.shop.anno", "必填"}, {"fr.boutique.anno", "Vérifié"},
 }
 
 var exceptionPool = []qname{
@@ -311,6 +325,7 @@ var exceptionPool = []qname{
 	{"java.io", "FileNotFoundException"}, {"org.springframework.dao", "DataAccessException"},
 	{"javax.validation", "ValidationException"}, {"com.fasterxml.jackson.core", "JsonProcessingException"},
 	{"org.springframework.web.client", "HttpClientErrorException"},
+	{"de.bank.fehler", "UngültigeÜberweisungException"}, {"de.bank.fehler", "GebührenFehler"}, {"cn.shop.exc", "订单异常"},
 }
 
 var holderPool = []qname{
@@ -322,10 +337,12 @@ var holderPool = []qname{
 }
 
 var staticMethodPool = []string{"assertEquals", "assertTrue", "assertThat", "requireNonNull", "asList", "emptyList", "singletonList",
-	"toList", "joining", "format", "valueOf", "of", "when", "verify", "mock", "checkNotNull", "isBlank", "max", "min", "is"}
+	"toList", "joining", "format", "valueOf", "of", "when", "verify", "mock", "checkNotNull", "isBlank", "max", "min", "is",
+	"prüfe", "berechneGebühr", "überweise", "创建"}
 
 var staticConstPool = []string{"MAX_VALUE", "MIN_VALUE", "UTF_8", "SECONDS", "MILLISECONDS", "EMPTY", "DEFAULT_TIMEOUT", "PI", "ZERO",
-	"ONE", "TEN", "INSTANCE", "NONE", "OK", "NOT_FOUND", "GET", "POST", "APPLICATION_JSON", "E", "out", "err", "instance"}
+	"ONE", "TEN", "INSTANCE", "NONE", "OK", "NOT_FOUND", "GET", "POST", "APPLICATION_JSON", "E", "out", "err", "instance",
+	"GEBÜHR", "MAX_GRÖSSE", "größe", "默认", "ΔT"}
 
 var wildcardPkgs = []string{"java.util", "java.io", "java.util.function", "java.time", "javax.persistence", "org.junit", "com.acme.model",
 	"org.springframework.web.bind.annotation", "com.vendor.lib.api", "java.util.concurrent"}
@@ -374,6 +391,18 @@ func (g *projGen) synthType() qname {
 			sb.WriteByte(byte('0' + g.r.Intn(10)))
 		}
 		s := sb.String()
+		if g.r.Chance(1, 5) {
+			// one non-ASCII letter: as the first letter, somewhere inside, or as the last
+			switch rs := []rune(s); g.r.Intn(3) {
+			case 0:
+				s = g.r.Pick([]string{"Ä", "Ö", "Ü", "É", "Ñ", "Ø", "Ж", "Ω"}) + string(rs[1:])
+			case 1:
+				k := g.r.Intn(len(rs)) + 1
+				s = string(rs[:k]) + g.r.Pick([]string{"ä", "ö", "ü", "ß", "é", "ñ", "ç", "ø", "ж", "单"}) + string(rs[k:])
+			default:
+				s += g.r.Pick([]string{"ä", "é", "ß", "ю", "单"})
+			}
+		}
 		if reserved[s] || g.natures[s] != "" || g.used[s] {
 			continue
 		}
@@ -1055,7 +1084,8 @@ func (fg *fileGen) plant() {
 		}
 		// decoys around unreferenced names: longer identifiers that merely contain the simple name
 		if len(im.Roles) == 0 && !im.IsWildcard() && r.Chance(1, 3) {
-			lower := strings.ToLower(N[:1]) + N[1:]
+			nr := []rune(N)
+			lower := strings.ToLower(string(nr[:1])) + string(nr[1:])
 			pick := r.Intn(3)
 			if annoType {
 				pick = 2
@@ -1066,7 +1096,7 @@ func (fg *fileGen) plant() {
 			case 1:
 				fg.stmt(N + fg.id("Impl") + " " + fg.id("value") + " = null;")
 			case 2:
-				fg.fields = append(fg.fields, []string{fg.fieldMods() + "int my" + strings.ToUpper(N[:1]) + N[1:] + fg.id("Size") + " = 0;"})
+				fg.fields = append(fg.fields, []string{fg.fieldMods() + "int my" + strings.ToUpper(string(nr[:1])) + string(nr[1:]) + fg.id("Size") + " = 0;"})
 			}
 		}
 	}
@@ -1197,6 +1227,9 @@ func (fg *fileGen) render() {
 		roles := strings.Join(im.Roles, "+")
 		if len(im.Mentions) > 0 {
 			roles += "~" + strings.Join(im.Mentions, "+")
+		}
+		if im.NonASCII() {
+			roles += "!u"
 		}
 		shape = append(shape, im.Kind+":"+roles+":"+im.Gap+":"+im.Style)
 	}
@@ -1403,7 +1436,7 @@ type tokenAt struct {
 }
 
 func isIdentStart(c byte) bool {
-	return c == '_' || c == '$' || (c >= 'a' && c <= 'z') || (c >= 'A' && c <= 'Z')
+	return c == '_' || c == '$' || (c >= 'a' && c <= 'z') || (c >= 'A' && c <= 'Z') || c >= 0x80 // UTF-8 bytes of non-ASCII letters
 }
 
 func isIdentPart(c byte) bool { return isIdentStart(c) || (c >= '0' && c <= '9') }
